@@ -93,6 +93,7 @@ fn exprs(tier: Tier) -> Vec<Expression> {
         x.clone(),
         th.clone(),
         th1.clone(),
+        Expression::PiConstant(),
         num(2.0, 0.0) * Expression::PiConstant(),
         -x.clone(),
         -(-x.clone()),
